@@ -238,7 +238,7 @@ package graphql
 // tables: the fragment table built by Parse and slices of parsed directives never hold nil.
 //@ nonnil ast.Field.Name, ast.FragmentSpread.Name, ast.Directive.Name, ast.Argument.Name, ast.Argument.Value, ast.Named.Name, ast.Variable.Name, ast.VariableDefinition.Variable, ast.VariableDefinition.Type, ast.ObjectField.Name, ast.ObjectField.Value, ast.FragmentDefinition.Name, ast.FragmentDefinition.TypeCondition, ast.FragmentDefinition.SelectionSet, ast.OperationDefinition.SelectionSet, ast.NonNull.Type, ast.List.Type
 //@ nonnil elem *ast.Field, elem *ast.FragmentSpread, elem *ast.InlineFragment, elem *ast.Directive, elem *ast.Argument, elem *ast.VariableDefinition, elem *ast.ObjectField, elem *ast.OperationDefinition, elem *ast.FragmentDefinition, elem *ast.Variable, elem *ast.IntValue, elem *ast.FloatValue, elem *ast.StringValue, elem *ast.BooleanValue, elem *ast.EnumValue, elem *ast.ListValue, elem *ast.ObjectValue, elem *ast.Named, elem *ast.List, elem *ast.NonNull
-//@ nonnil elem *graphql.Fragment, elem *graphql.Directive
+//@ nonnil elem *graphql.Fragment, elem *graphql.Directive, elem *graphql.Object
 //@ trusted func parser.Parse
 //@   ensures err == nil ==> result != nil
 
@@ -301,7 +301,7 @@ package graphql
 //@   ensures value is *ast.ObjectValue && err == nil ==> result is map[string]interface{} && fresh(result.(map[string]interface{}))
 //@   ensures !(value is *ast.StringValue || value is *ast.BooleanValue || value is *ast.EnumValue || value is *ast.Variable || value is *ast.IntValue || value is *ast.FloatValue || value is *ast.ListValue || value is *ast.ObjectValue) ==> err != nil
 //@   loop 1 invariant fresh(obj)
-//@   loop 2 invariant fresh(list) && len(list) == rangeindex+1 && rangeindex < len(value.(*ast.ListValue).Values)
+//@   loop 2 invariant fresh(list) && len(list) == rangeindex+1 && rangeindex < len(value.Values)      // here `value` is the *ast.ListValue bound by the type switch
 //@ func parseSelectionSet
 //@   assigns nothing
 //@   loop 1 invariant (selections == nil || fresh(selections)) && (fragments == nil || fresh(fragments))
@@ -334,3 +334,22 @@ package graphql
 //@   call ShouldIncludeNode ghost approved = ite(ret0 && ret1 == nil, selection, nil)
 //@   call mapupdate#1 assert approved == selection
 //@   call newOutputNode#1 assert approved == selection && arg1 == selection.Alias
+
+// ---- C01 (union dispatch): every member type that has sources is handed to resolveObjectBatch exactly once, with all of
+// its sources and their destinations (so each destination is filled exactly once, with the merge of the applicable
+// fragments); nil union values are filled with nil directly.
+//@ func resolveUnionBatch
+//@   requires typ != nil && selectionSet != nil && len(destinations) >= len(sources)
+//@   keeps Union, SelectionSet, []*Fragment, Fragment, map[string][]interface{}, map[string][]*outputNode, map[string]*Object
+//@   ghost nobj map[string]int          // calls of resolveObjectBatch per member type
+//@   entry ghost nobj = constmap(nobj, 0)
+//@   call outputNode.Fill assert arg0 == destinations[idx] && arg1 == nil
+//@   call resolveObjectBatch assert arg1 == sources
+//@   call resolveObjectBatch assert arg2 == typ.Types[srcType]
+//@   call resolveObjectBatch assert arg4 == destinationsByType[srcType]
+//@   call resolveObjectBatch ghost nobj[srcType] = nobj[srcType] + 1
+//@   loop 1 invariant forall t string :: len(sourcesByType[t]) == len(destinationsByType[t]) && ((t in sourcesByType) ==> (t in typ.Types))
+//@   loop 2 invariant forall t string :: len(sourcesByType[t]) == len(destinationsByType[t]) && ((t in sourcesByType) ==> (t in typ.Types))
+//@   loop 3 invariant forall t string :: (visited[t] ==> nobj[t] == 1) && (!visited[t] ==> nobj[t] == 0)
+//@   loop 3 invariant forall t string :: len(sourcesByType[t]) == len(destinationsByType[t]) && ((t in sourcesByType) ==> (t in typ.Types))
+//@   ensures err == nil ==> forall t string :: (t in sourcesByType) ==> nobj[t] == 1
